@@ -318,10 +318,10 @@ macro_rules! float_ctor_mod {
                         if !(b.abs() < a) {
                             allowed.push("AbsoluteBetaNotLessThanAlpha");
                         }
-                        // AlphaInfinite is also documented for alpha "too close to the maximum finite value":
-                        // alpha so large that 1/gamma underflows to 0 is left open
-                        let exp = if allowed.is_empty() && a > (F::MAX / 4.0) { Expect::unspecified() } else { Expect { spec: true, allowed } };
-                        tnig.judge(&args, guarded(|| NormalInverseGaussian::new(a, b)), exp);
+                        // AlphaInfinite is also documented for alpha "too close to the maximum finite value, if
+                        // subnormal numbers are not supported": this platform supports them (1 / MAX is a non-zero
+                        // subnormal), so every finite alpha with |beta| < alpha must be accepted
+                        tnig.judge(&args, guarded(|| NormalInverseGaussian::new(a, b)), Expect { spec: true, allowed });
                         // Zipf(n = a, s = b)
                         let mut allowed = vec![];
                         if !(b >= 0.0) {
@@ -594,6 +594,19 @@ macro_rules! weighted_ctor {
             for _ in 0..(if deep { 3000 } else { 300 }) {
                 let n = 1 + rng.below(12) as usize;
                 vecs.push((0..n).map(|_| alpha[rng.below(alpha.len() as u64) as usize]).collect());
+            }
+            // long vectors whose entries sit at (or a hair below) the documented per-length maximum MAX / len
+            for n in [31usize, 32, 33, 34, 35, 63, 64, 65, 100, 127, 128, 129, 200, 255, 256, 257, 300] {
+                let cap_f = (<$W>::MAX as f64) / (n as f64);
+                for frac in [1.0f64, 0.999999, 0.5] {
+                    let w: $W = if $is_float { (cap_f * frac) as $W } else { ((<$W>::MAX as u128 / n as u128) as f64 * frac) as $W };
+                    let w: $W = if !$is_float && frac == 1.0 { ((<$W>::MAX as u128) / (n as u128)) as $W } else { w };
+                    vecs.push(vec![w; n]);
+                    let mut v2 = vec![w; n];
+                    v2[n / 2] = Default::default();
+                    v2[0] = (1 as $W);
+                    vecs.push(v2);
+                }
             }
             let mut ta = Tally::new(concat!("WeightedAliasIndex::new<", stringify!($W), ">"), profile);
             let mut tt = Tally::new(concat!("WeightedTreeIndex::new<", stringify!($W), ">"), profile);
